@@ -1,10 +1,31 @@
+"""C12: structure half (tools c12: layout/spelling variants through the real front end against the
+rendered reference structure) + behaviour half (E1 harness on the escape families: every spelling and
+adjacent escapes run as parsers against the reference interpreter)."""
 import toolprops
 
 
 def check(V, prop, tier):
-    return toolprops.generic(V, prop, tier, assumptions=[
+    rep = V.Report(prop, tier, "exploration")
+    V.build_engine()
+    lines = toolprops.run_tool(V, ["c12", tier], 3600)
+    stats = [l for l in lines if l.get("k") == "stats"][0]
+    for l in lines:
+        if l.get("k") == "viol":
+            rep.add_violation({k: val for k, val in l.items() if k not in ("k", "prop")})
+    beh = V.run_e1("C12", tier, rep)
+    rep.coverage = {
+        "evaluations": stats["evaluations"] + beh["evaluations"],
+        "distinct_nontrivial": stats["nontrivial"] + beh["distinct_nontrivial"],
+        "rule": toolprops.RULES["C12"] + "; behaviour half: (escape grammar, input) pairs run on the real generated parser, non-trivial = accepted with at least one byte consumed",
+        "samples": stats["samples"][:4] + beh["samples"][:3],
+        "structure_half": {k: stats[k] for k in ("grammars", "layout_variants", "escape_spellings", "fillers", "pair_deviations", "distinct_outcomes")},
+        "behaviour_half": {k: beh[k] for k in ("grammars_enumerated", "grammar_families", "input_spaces", "parses_accepted", "parses_rejected", "distinct_outcomes")},
+        "exhaustive": True,
+    }
+    rep.assumptions = [
         "layout deviations: all single gap deviations over 7 fillers, each filler in all gaps at once, and (thorough, grammars up to 24 tokens) all pairs over 3x3 fillers; deeper combinations are not explored",
         "inside @check(...)/@extern(...) paths comments are not offered as fillers: a name part is documented to take every character except - ) :",
         "expected structure = the reference AST rendered in the Debug form of peginator_codegen::Grammar (engine/refpeg/src/astdebug.rs)",
-        "escape spellings are judged by structure and by the generated code being identical to the canonically spelled grammar (behaviour of the canonical spellings is C01's escape family)",
-    ])
+        "escape spellings are judged by structure, by the generated code being identical to the canonically spelled grammar, and behaviourally on the escape families (every spelling of 11 pool characters; all ordered pairs over CR, LF, TAB, b, backslash, quote inside one literal in escaped/raw/mixed spelling)",
+    ]
+    return rep.finish()
